@@ -119,6 +119,10 @@ pub(crate) trait FixedChannelRegion: ChannelRegion {
 
 impl<F: FixedChannelRegion> RegionHandler for FixedChannelPlan<F> {
     fn process_join_accept(&mut self, c_f_list: Option<&CfList>) {
+        // A new session starts from the default plan with every channel enabled: the mask a
+        // previous session was left with (CFList, LinkADRReq) does not survive a join. The join
+        // bias is kept, it is only reset by a mask the network sends.
+        self.channel_mask = Default::default();
         // A mask that leaves nothing to transmit on at the default data rate is invalid and
         // ignored, by the same rule LinkADRReq masks are validated with.
         if let Some(CfList::FixedChannel(channel_mask)) = c_f_list
